@@ -11,9 +11,13 @@ byte, and which contract text to splice in (insertions only):
     //@ret r                   '-> T'  becomes  '-> (r: T)'   (names the result; insertion only)
     //@subst A => B            declared token substitution inside the copied text (type aliases)
     //@attr external_body      body is kept but not verified: the contract is an ASSUMPTION
+    //@pin <sha256-prefix>     (with external_body and no Kani check) the assumption was stated for exactly this text of
+                               the function; a different text makes the unit undecided instead of silently still assumed
     //@contract                lines inserted between signature and body
     //@bodystart               lines inserted right after the body's '{'
     //@loop <n>                lines inserted before the '{' of the n-th loop (textual order)
+    //@loopbody <n>            lines inserted right after the '{' of the n-th loop (proof hints that must precede every
+                               statement of the body, so that reordering / splitting statements cannot move code above them)
     //@before <anchor>[ ##k]   lines inserted before the k-th occurrence of the anchor text in the body
     //@after <anchor>[ ##k]    lines inserted after  the k-th occurrence of the anchor text in the body
     //@afterstmt <anchor>[ ##k] lines inserted after the ';' ending the statement that starts at the anchor
@@ -65,6 +69,7 @@ class FnSpec:
         self.ret = None
         self.substs = []
         self.attrs = []
+        self.pin = None
         self.blocks = []
 
 
@@ -152,6 +157,8 @@ def gen_fn(repo, fs, unit):
         raise GenError('lost anchor: %s has no body' % sel)
     orig = src[it.sig_start:it.end]
     sha = hashlib.sha256(orig.encode()).hexdigest()
+    if fs.pin and not sha.startswith(fs.pin):
+        raise GenError('assumed contract of %s is pinned to another text of the function (pinned %s, found %s): the body changed and nothing checks it' % (sel, fs.pin, sha[:16]))
     text = apply_substs(orig, fs.substs)
     expected_after_unsplice = text
     mt = R.mask(text)
@@ -215,6 +222,11 @@ def gen_fn(repo, fs, unit):
             if n < 1 or n > len(loops):
                 raise GenError('lost anchor: loop %d of %s (function has %d loops)' % (n, sel, len(loops)))
             inserts.append((loops[n - 1][1], order, '\n' + payload + '\n', 'loop%d' % n)); order += 1
+        elif b.kind == 'loopbody':
+            n = int(b.arg.split()[0])
+            if n < 1 or n > len(loops):
+                raise GenError('lost anchor: loop %d of %s (function has %d loops)' % (n, sel, len(loops)))
+            inserts.append((loops[n - 1][1] + 1, order, '\n' + payload + '\n', 'loopbody%d' % n)); order += 1
         elif b.kind in ('before', 'after', 'afterstmt'):
             arg = b.arg
             k = 1
@@ -405,7 +417,9 @@ def generate(repo, template_path, unit):
                         fs.substs.append((a.strip().strip('`'), b.strip().strip('`')))
                     elif d2 == 'attr':
                         fs.attrs.append(a2)
-                    elif d2 in ('contract', 'bodystart', 'loop', 'before', 'after', 'afterstmt'):
+                    elif d2 == 'pin':
+                        fs.pin = a2.split()[0]
+                    elif d2 in ('contract', 'bodystart', 'loop', 'loopbody', 'before', 'after', 'afterstmt'):
                         cur = Block(d2, a2)
                         fs.blocks.append(cur)
                     else:
